@@ -135,7 +135,8 @@ example :
 /-! ### (B) the prefix log replicates the announced set -/
 
 /-- For every publisher history and every interleaving with the events of any number of peers
-    (learning any sequence number — also stale or future ones —, deliveries from the publisher's repo,
+    (learning any sequence number — also stale or future ones, also while the peer has no path to the
+    publisher yet —, gaining and losing the path, deliveries from the publisher's repo,
     time-outs; peers may start at any point), provided sequence numbers do not wrap around 2^64:
     every peer's prefix set is the publisher's announced set after the publication whose sequence
     number the peer has reached (`setAtL log known`; snapshot or op by op, gap > 100 forces a snapshot),
@@ -156,8 +157,8 @@ theorem log_replay_eq_announced (seq0 : UInt64) (k : Nat) (evs : List LogEvent)
 /-- a late peer starts from a snapshot, an up-to-date peer follows op by op; both end with the
     publisher's set (the outcome does not depend on how often the publisher takes snapshots) -/
 example :
-    let s := (LogSys.init 1000 2).run [.announce 7, .sync 0 1001, .deliver 0, .deliver 0, .announce 8, .withdraw 7,
-      .sync 0 1003, .deliver 0, .deliver 0, .deliver 0, .sync 1 1003, .deliver 1, .deliver 1, .deliver 1, .deliver 1]
+    let s := (LogSys.init 1000 2).run [.path 0 true, .announce 7, .sync 0 1001, .deliver 0, .deliver 0, .announce 8, .withdraw 7,
+      .sync 0 1003, .deliver 0, .deliver 0, .deliver 0, .sync 1 1003, .path 1 true, .deliver 1, .deliver 1, .deliver 1, .deliver 1]
     (s.peers.map fun q => (q.known, q.set)) = [(1003, [8]), (1003, [8])] ∧ s.pub.set = [8] := by decide
 
 /-- the announced set by the operations issued (specification side) -/
